@@ -1,0 +1,10 @@
+//go:build !verif
+// +build !verif
+
+package anndb
+
+import "github.com/marekgalovic/anndb/storage/raft"
+
+const verifNoListen = false
+
+func (this *Server) verifFinishSetup(raftTransport *raft.RaftTransport) error { return nil }
